@@ -242,6 +242,10 @@ class Replayer:
 
 def replay_history(g, enc, problem, hist, tid=0, bad=False):
     r = Replayer(g, enc, problem)
+    if [d['n'] for d in r.all_dvs] != problem['nopts']:
+        # the fast encoder declares other variables (forced choices are variables there): the histories were generated
+        # for the complete encoder's problem and do not apply
+        return {'tid': tid, 'skip': 'different design variables for this encoder'}
     for op in hist:
         r.step(op)
     r.probe()
